@@ -40,6 +40,9 @@ def expanded_transitions(d):
     out = []
     for ev, src, dest in d['transitions']:
         out.append((ev, src, src if dest == '=' else dest))
+    for parent, ev, src, dest in d.get('local', []):
+        # declared inside the parent's state dict, names relative to the parent
+        out.append((ev, parent + SEP + src, parent + SEP + dest))
     if d['auto']:
         for t in state_names(d):
             for s in state_names(d):
@@ -49,8 +52,8 @@ def expanded_transitions(d):
 
 def has_out(d, name):
     """what `machine.get_triggers(name)` must be non-empty for: a transition whose source is the state
-    (flat) or the state or one of its ancestors (hierarchical; only globally declared transitions are
-    generated)"""
+    (flat) or the state or one of its ancestors (hierarchical; transitions declared on the machine or
+    inside the parent's state dict)"""
     srcs = set(ancestors_or_self(name)) if is_nested(d['cls']) else {name}
     return any(src in srcs for _ev, src, _dest in expanded_transitions(d))
 
@@ -62,15 +65,59 @@ def eff_tags(s):
     return t
 
 
+def is_edit(h):
+    return h[0] == 'T'
+
+
 def normalise(d):
     """history entries must name events the machine knows (an unknown name is an AttributeError of the
-    model, nobody's contract here)"""
+    model, nobody's contract here); `tags` edits need a machine with Tags/Error and a known state"""
     known = set(ev for ev, _s, _d in expanded_transitions(d))
-    if all(ev in known for _m, ev in d['history']):
-        return d
+    tagged = 'Tags' in d['feats'] or 'Error' in d['feats']
+    names = set(state_names(d))
+
+    def ok(h):
+        if is_edit(h):
+            return tagged and h[1] in names
+        return h[1] in known
     d = dict(d)
-    d['history'] = [h for h in d['history'] if h[1] in known]
+    d.setdefault('local', [])
+    d.setdefault('on_exception', False)
+    d['local'] = [l for l in d['local'] if is_nested(d['cls']) and l[0] + SEP + l[2] in names and l[0] + SEP + l[3] in names]
+    d['history'] = [h for h in d['history'] if ok(h)]
     return d
+
+
+class TagTracker(object):
+    """what each state's public `tags` list holds, with Python's aliasing: a state that was handed a list
+    object keeps that very object (so in-place edits show in every state sharing it), a state declared
+    accepted=True got a copy; re-assignment gives the state a list of its own."""
+
+    def __init__(self, d):
+        self.cell = {}
+        shared = {}
+        for s in d['states']:
+            if s.get('tags') is not None and s.get('tags_ref') and not s.get('accepted'):
+                self.cell[s['name']] = shared.setdefault(s['tags_ref'], list(s['tags']))
+            else:
+                self.cell[s['name']] = eff_tags(s)
+
+    def tags(self, name):
+        return self.cell[name]
+
+    def apply(self, name, mode, tags):
+        """returns the names of the states whose tags changed"""
+        cell = self.cell[name]
+        if mode == 'assign':
+            self.cell[name] = list(tags)
+            return [name]
+        if mode == 'append':
+            cell.extend(tags)
+        else:
+            for t in tags:
+                if t in cell:
+                    cell.remove(t)
+        return [n for n, c in self.cell.items() if c is cell]
 
 
 def fingerprint(d):
@@ -124,6 +171,8 @@ def gen(rng, cls=None, probe=None, featureless=False):
     d['ignore'] = rng.random() < 0.3
     d['send_event'] = rng.random() < 0.5
     d['nmodels'] = rng.choice([1, 1, 2, 2, 3])
+    d['on_exception'] = rng.random() < 0.25
+    d['local'] = []
     p_args = 0.0 if featureless else 0.8
     states = []
     tops = ['A', 'B', 'C', 'D'][:rng.randint(2, 4)]
@@ -139,6 +188,11 @@ def gen(rng, cls=None, probe=None, featureless=False):
                 states.append(c)
             if rng.random() < 0.8:
                 s['initial'] = rng.choice(kids)
+            if rng.random() < 0.45:
+                # transitions declared inside the parent's state dict (names relative to the parent)
+                for n in range(rng.randint(1, 2)):
+                    src = rng.choice(kids)
+                    d['local'].append([t, 'l%d' % n, src, src if rng.random() < 0.7 else rng.choice(kids)])
     if not featureless and ('Tags' in d['feats'] or 'Error' in d['feats']) and rng.random() < 0.12 and len(states) > 1:
         # a caller who reuses one tags list for several states
         sharers = rng.sample(states, rng.randint(2, min(3, len(states))))
@@ -168,6 +222,11 @@ def gen(rng, cls=None, probe=None, featureless=False):
     for rs in retry_states:
         if rng.random() < 0.85:
             trans.append([rng.choice(events), rs, rng.choice(['=', rs])])
+        if nested and SEP in rs and rng.random() < 0.35 and not featureless:
+            par, kid = rs.rsplit(SEP, 1)
+            d['local'].append([par, 'l%d' % rng.randint(0, 1), kid, kid])
+    seenl = set()
+    d['local'] = [l for l in d['local'] if (l[0], l[1], l[2]) not in seenl and not seenl.add((l[0], l[1], l[2]))]
     if featureless and 'Error' in d['feats'] and not d['auto']:
         # every state of an Error machine is subject to the Error contract, argument-free or not;
         # the decorated-vs-plain comparison is about states the contract does not single out
@@ -202,7 +261,7 @@ def gen(rng, cls=None, probe=None, featureless=False):
     if not tr:
         d['transitions'] = [[events[0], d['initial'], '=']]
         tr = expanded_transitions(d)
-    events = [e for e in events if any(t[0] == e for t in tr)]
+    events = [e for e in events if any(t[0] == e for t in tr)] + sorted(set(l[1] for l in d['local']))
     evs = events + (['to_' + rng.choice(names)] if d['auto'] else [])
     cur = [descend(d['initial']) if nested else d['initial'] for _ in range(d['nmodels'])]
 
@@ -223,20 +282,36 @@ def gen(rng, cls=None, probe=None, featureless=False):
                 if t[2] is not None:
                     cur[m] = descend(t[2]) if nested else t[2]
                 return
+    tagged = ('Tags' in d['feats'] or 'Error' in d['feats']) and not featureless
+
+    def edit():
+        # the public `tags` list of a built state is edited between triggers
+        name = rng.choice(names)
+        mode = rng.choice(['assign', 'append', 'remove', 'remove'])
+        if mode == 'assign':
+            return ['T', name, mode, sorted(rng.sample(TAGS, rng.randint(0, 2)))]
+        return ['T', name, mode, [rng.choice(TAGS[:1] * 2 + TAGS)]]
+
+    def one(m, ev):
+        if rng.random() < 0.12:
+            # an on_exit callback of the state being left raises (index of the raising callback)
+            hist.append([m, ev, rng.randint(0, 1)])
+        else:
+            hist.append([m, ev])
+            advance(m, ev)
+        if tagged and rng.random() < 0.15:
+            hist.append(edit())
     hist = []
     n = rng.randint(3, 14)
     while len(hist) < n:
         m = rng.randrange(d['nmodels'])
         ev = pick(m)
         for _ in range(rng.choice([1, 1, 1, 2, 3, 5])):
-            hist.append([m, ev])
-            advance(m, ev)
+            one(m, ev)
             if rng.random() < 0.25 and d['nmodels'] > 1:
                 m2 = rng.randrange(d['nmodels'])
-                ev2 = pick(m2)
-                hist.append([m2, ev2])
-                advance(m2, ev2)
-    d['history'] = hist[:18]
+                one(m2, pick(m2))
+    d['history'] = hist[:20]
     return normalise(d)
 
 
@@ -247,6 +322,7 @@ def gen(rng, cls=None, probe=None, featureless=False):
 class Log(object):
     def __init__(self):
         self.items = []
+        self.handled = []       # exceptions the machine's on_exception handler was given
         self.objs = []          # every volatile object ever observed, kept alive (ids are never reused)
 
     def objnum(self, o):
@@ -274,11 +350,16 @@ class OtherObj(object):
     """another user supplied `volatile=` class"""
 
 
+class Veto(Exception):
+    """raised by an on_exit recorder when the harness armed the model's veto"""
+
+
 class ModelObj(object):
     def __init__(self, idx, log, names):
         self._idx = idx
         self._log = log
         self._names = names
+        self._veto = None       # index of the on_exit callback that raises during the next exit
 
     def __getattr__(self, name):
         # on_failure given as the *name* of a model method: `failcb<state index>`
@@ -298,9 +379,13 @@ def _model_of(models, args):
     return models[a]
 
 
-def make_recorder(log, models, kind, s, j):
+def make_recorder(log, models, kind, s, j, last=0):
     def rec(*args, **kwargs):
         m = _model_of(models, args)
+        if kind == 'exitCb' and m._veto is not None and j >= min(m._veto, last):
+            m._veto = None
+            log.items.append(('exitRaise', s, m._idx, j, log.snap(m)))
+            raise Veto()
         log.items.append((kind, s, m._idx, j, log.snap(m)))
     return rec
 
@@ -322,8 +407,9 @@ def realise(d):
         """a user defined feature placed first: sees every enter/exit the engine issues"""
 
         def enter(self, event_data):
+            # the source exactly as Retry.enter reads it (a name; relative for locally declared transitions)
             log.items.append(('op_enter', idx.get(self.name, -1), event_data.model._idx,
-                              idx.get(event_data.transition.source, -1)))
+                              event_data.transition.source))
             super(Probe, self).enter(event_data)
 
         def exit(self, event_data):
@@ -348,7 +434,7 @@ def realise(d):
         i = idx[s['name']]
         o = {'name': s['name'].split(SEP)[-1],
              'on_enter': [make_recorder(log, models, 'enterCb', i, j) for j in range(s['n_enter'])],
-             'on_exit': [make_recorder(log, models, 'exitCb', i, j) for j in range(s['n_exit'])]}
+             'on_exit': [make_recorder(log, models, 'exitCb', i, j, s['n_exit'] - 1) for j in range(s['n_exit'])]}
         if s.get('tags') is not None:
             # states with the same 'tags_ref' are handed one and the same list object
             o['tags'] = lists.setdefault(s['tags_ref'], list(s['tags'])) if s.get('tags_ref') else list(s['tags'])
@@ -377,9 +463,16 @@ def realise(d):
             defs.append(o)
         if s.get('initial'):
             o['initial'] = s['initial']
+    for parent, ev, src, dest in d.get('local', []):
+        by_name[parent].setdefault('transitions', []).append([ev, src, dest])
+    kwargs = {}
+    if d.get('on_exception'):
+        def on_exc(*args, **kwargs):
+            log.handled.append(1)
+        kwargs['on_exception'] = on_exc
     machine = Custom(model=models, states=defs, transitions=[list(t) for t in d['transitions']],
                      initial=d['initial'], auto_transitions=d['auto'],
-                     ignore_invalid_triggers=d['ignore'], send_event=d['send_event'])
+                     ignore_invalid_triggers=d['ignore'], send_event=d['send_event'], **kwargs)
     return machine, models, log
 
 
@@ -425,16 +518,42 @@ def execute(d):
     def post():
         return [(idx.get(m.state, -1), log.snap(m)) for m in models]
     r.initial_post = post()
-    for mi, ev in d['history']:
+
+    def kind_of(e):
+        return 'ME' if isinstance(e, MachineError) else 'veto' if isinstance(e, Veto) else 'exc:' + type(e).__name__
+    for h in d['history']:
         del log.items[:]
+        del log.handled[:]
+        if is_edit(h):
+            st = machine.get_state(h[1])
+            if h[2] == 'assign':
+                st.tags = list(h[3])
+            elif h[2] == 'append':
+                st.tags.extend(h[3])
+            else:
+                for t in h[3]:
+                    if t in st.tags:
+                        st.tags.remove(t)
+            r.steps.append({'items': [], 'result': 'edit', 'post': post(), 'tags': read_tags(d, machine)})
+            continue
+        mi, ev = h[0], h[1]
+        models[mi]._veto = h[2] if len(h) > 2 else None
+        res = 'raised'
         try:
             res = models[mi].trigger(ev, mi)
             result = 'true' if res is True else ('false' if res is False else 'other:%r' % (res,))
-        except MachineError:
-            result = 'ME'
-        except Exception as e:      # anything else is outside every contract
-            result = 'exc:' + type(e).__name__
-        r.steps.append({'items': list(log.items), 'result': result, 'post': post()})
+        except Exception as e:      # MachineError and the harness's Veto are expected; anything else is not
+            result = kind_of(e)
+        models[mi]._veto = None
+        handled = False
+        if log.handled:
+            # the machine's on_exception handler took the exception (the trigger then returns a falsy value):
+            # a Veto when an on_exit recorder raised, else the MachineError of an invalid trigger / Error state
+            handled = True
+            vetoed = any(it[0] == 'exitRaise' for it in log.items)
+            result = ('veto' if vetoed else 'ME') if (len(log.handled) == 1 and not res) else \
+                'exc:handler(%d,%s)' % (len(log.handled), result)
+        r.steps.append({'items': list(log.items), 'result': result, 'handled': handled, 'post': post()})
         if result.startswith('exc:'):
             break
     r.tags_after = read_tags(d, machine)
@@ -482,24 +601,76 @@ def enc_feats(d):
     return [len(d['feats'])] + [MIXINS.index(f) for f in d['feats']]
 
 
-def groups_of(run):
-    """the ops the probe saw, per trigger"""
+# True while Retry.enter compares the *declared* source name (relative for transitions declared inside a
+# parent's state dict) with the scoped state name — known finding F-C19-retry-local-source.  The Lean model is
+# fed what the code reads.  When the fix is adopted: set to False (the model is then fed the resolved name).
+RETRY_SEES_RAW_SOURCE = True
+
+
+def resolve_source(d, raw, pre_state):
+    """full name of a transition source as written in its declaration: itself when it is a full state name,
+    otherwise relative to the enclosing scope of the state the model was in"""
+    names = set(state_names(d))
+    if raw in names:
+        return raw
+    for a in ancestors_or_self(pre_state or ''):
+        if a + SEP + raw in names:
+            return a + SEP + raw
+        par = a.rsplit(SEP, 1)[0] if SEP in a else None
+        if par and par + SEP + raw in names:
+            return par + SEP + raw
+    return raw
+
+
+def trigger_steps(d, run):
+    """[(history index, step, tags edits made since the previous trigger as [(state index, [tag indices])])]"""
+    idx = sidx(d)
+    tr = TagTracker(d)
+    out = []
+    pending = {}
+    for n, (h, st) in enumerate(zip(d['history'], run.steps)):
+        if is_edit(h):
+            for name in tr.apply(h[1], h[2], h[3]):
+                pending[idx[name]] = [TAGS.index(t) for t in tr.tags(name)]
+        else:
+            out.append((n, st, sorted(pending.items())))
+            pending = {}
+    return out
+
+
+def groups_of(d, run):
+    """the ops the probe saw, per trigger: (kind 0 enter | 1 exit | 2 exit whose callback raised, state, model,
+    source as the model is to read it)"""
+    idx = sidx(d)
+    names = state_names(d)
+    unknown = len(names)
     gs = []
+    pre = [s for s, _h in run.initial_post]
     for st in run.steps:
         g = []
+        raised = set((it[1], it[2]) for it in st['items'] if it[0] == 'exitRaise')
         for it in st['items']:
             if it[0] == 'op_enter':
-                g.append((0, it[1], it[2], it[3]))
+                raw = it[3]
+                if not RETRY_SEES_RAW_SOURCE:
+                    raw = resolve_source(d, raw, names[pre[it[2]]] if 0 <= pre[it[2]] < unknown else None)
+                g.append((0, it[1], it[2], idx.get(raw, unknown)))
             elif it[0] == 'op_exit':
-                g.append((1, it[1], it[2], 0))
+                g.append((2 if (it[1], it[2]) in raised else 1, it[1], it[2], 0))
         gs.append(g)
+        pre = [s for s, _h in st['post']]
     return gs
 
 
 def enc_ops(d, run):
-    gs = groups_of(run)
-    o = enc_feats(d) + [len(HOOKS)] + enc_states(d) + [d['nmodels'], len(gs)]
-    for g in gs:
+    gs = groups_of(d, run)
+    ts = trigger_steps(d, run)
+    o = enc_feats(d) + [len(HOOKS)] + enc_states(d) + [d['nmodels'], len(ts)]
+    for n, _st, edits in ts:
+        o.append(len(edits))
+        for si, tags in edits:
+            o += [si, len(tags)] + tags
+        g = gs[n]
         o.append(len(g))
         for op in g:
             o += list(op)
@@ -511,9 +682,9 @@ def event_ids(d):
     for ev, _s, _d in expanded_transitions(d):
         if ev not in evs:
             evs.append(ev)
-    for _m, ev in d['history']:
-        if ev not in evs:
-            evs.append(ev)
+    for h in d['history']:
+        if not is_edit(h) and h[1] not in evs:
+            evs.append(h[1])
     return {e: i for i, e in enumerate(evs)}
 
 
@@ -524,9 +695,18 @@ def enc_flat(d):
     o = enc_feats(d) + [len(HOOKS)] + enc_states(d) + [len(tr)]
     for ev, src, dest in tr:
         o += [eid[ev], idx[src]] + ([0] if dest is None else [1, idx[dest]])
-    o += [1 if d['ignore'] else 0, d['nmodels'], idx[d['initial']], len(d['history'])]
-    for m, ev in d['history']:
-        o += [m, eid[ev]]
+    steps = []
+    tt = TagTracker(d)
+    for h in d['history']:
+        if is_edit(h):
+            for name in tt.apply(h[1], h[2], h[3]):
+                tags = [TAGS.index(t) for t in tt.tags(name)]
+                steps.append([1, idx[name], len(tags)] + tags)
+        else:
+            steps.append([0, h[0], eid[h[1]], 1 if len(h) > 2 else 0])
+    o += [1 if d['ignore'] else 0, d['nmodels'], idx[d['initial']], len(steps)]
+    for st in steps:
+        o += st
     return o
 
 
@@ -537,8 +717,8 @@ def _dec_log(nums, pos):
     H = len(HOOKS)
     for _ in range(n):
         k = nums[pos]
-        if k in (0, 1, 2):
-            items.append((['enterCbs', 'exitCbs', 'failure'][k], nums[pos + 1], nums[pos + 2],
+        if k in (0, 1, 2, 5):
+            items.append(({0: 'enterCbs', 1: 'exitCbs', 2: 'failure', 5: 'exitAbort'}[k], nums[pos + 1], nums[pos + 2],
                           tuple(x - 1 if x else None for x in nums[pos + 3:pos + 3 + H])))
             pos += 3 + H
         elif k == 3:
@@ -579,7 +759,7 @@ def dec_flat_answer(ans, d):
     pos = 0
     H = len(HOOKS)
     out = []
-    for _ in d['history']:
+    for _ in [h for h in d['history'] if not is_edit(h)]:
         items, pos = _dec_log(nums, pos)
         code = nums[pos]
         pos += 1
@@ -611,7 +791,20 @@ def collapse(d, items):
             out.append(('failure', s, m, snp))
             i += 1
             continue
+        if kind == 'exitRaise':
+            out.append(('exitAbort', s, m, snp))
+            i += 1
+            continue
         n = d['states'][s]['n_enter' if kind == 'enterCb' else 'n_exit'] if 0 <= s < len(d['states']) else 1
+        if kind == 'exitCb':
+            # an exit whose k-th callback raises: callbacks 0..k-1, then the raising one
+            k = next((q for q in range(i, min(i + n, len(its))) if its[q][0] == 'exitRaise'), None)
+            if k is not None and [g[:4] for g in its[i:k + 1]] == \
+                    [('exitCb', s, m, jj) for jj in range(k - i)] + [('exitRaise', s, m, k - i)] \
+                    and all(g[4] == snp for g in its[i:k + 1]):
+                out.append(('exitAbort', s, m, snp))
+                i = k + 1
+                continue
         grp = its[i:i + n]
         if [g[:4] for g in grp] != [(kind, s, m, jj) for jj in range(n)] or any(g[4] != snp for g in grp):
             bad.append('callbacks of state %s not run once each, in order: %r' % (s, [g[:4] for g in grp]))
@@ -660,40 +853,44 @@ def compare_ops(d, run, model):
     """op-level correspondence: implementation observations vs `runGroup` of the Lean model on the ops the
     probe saw.  Returns None or a details dict."""
     impl = []
-    groups = groups_of(run)
-    for st, g in zip(run.steps, groups):
+    groups = groups_of(d, run)
+    ts = trigger_steps(d, run)
+    for n, st, _e in ts:
         obs, bad = collapse(d, st['items'])
         if bad:
-            return {'step': len(impl), 'problem': bad[0]}
+            return {'step': n, 'problem': bad[0]}
         impl.append({'items': obs, 'post': [h for _s, h in st['post']]})
     ci = canon_steps(impl, False)
     cm = canon_steps(model, False)
     for k, (a, b) in enumerate(zip(ci, cm)):
-        raised_impl = run.steps[k]['result'] == 'ME' and len(groups[k]) > 0
+        n, st, _e = ts[k]
+        raised_impl = st['result'] == 'ME' and len(groups[n]) > 0
         if a != b or raised_impl != model[k]['raised']:
-            return {'step': k, 'trigger': d['history'][k], 'impl': repr(a), 'model': repr(b),
-                    'impl_result': run.steps[k]['result'], 'model_raised': model[k]['raised']}
+            return {'step': n, 'trigger': d['history'][n], 'impl': repr(a), 'model': repr(b),
+                    'impl_result': st['result'], 'model_raised': model[k]['raised']}
     if len(ci) != len(cm):
-        return {'step': min(len(ci), len(cm)), 'problem': 'implementation stopped early: %s' % run.steps[-1]['result']}
+        return {'step': len(run.steps), 'problem': 'implementation stopped early: %s' % run.steps[-1]['result']}
     return None
 
 
 def compare_flat(d, run, model):
     impl = []
-    for st in run.steps:
+    ts = trigger_steps(d, run)
+    for n, st, _e in ts:
         obs, bad = collapse(d, st['items'])
         if bad:
-            return {'step': len(impl), 'problem': bad[0]}
+            return {'step': n, 'problem': bad[0]}
         impl.append({'items': obs, 'post': st['post']})
     ci = canon_steps(impl, True)
     cm = canon_steps(model, True)
-    codes = {0: 'true', 1: 'false', 2: 'ME', 3: 'ME'}
+    codes = {0: 'true', 1: 'false', 2: 'ME', 3: 'ME', 4: 'veto'}
     for k, (a, b) in enumerate(zip(ci, cm)):
-        if a != b or run.steps[k]['result'] != codes[model[k]['code']]:
-            return {'step': k, 'trigger': d['history'][k], 'impl': repr(a), 'model': repr(b),
-                    'impl_result': run.steps[k]['result'], 'model_result': codes[model[k]['code']]}
-    if len(ci) != len(cm):
-        return {'step': min(len(ci), len(cm)), 'problem': 'implementation stopped early: %s' % run.steps[-1]['result']}
+        n, st, _e = ts[k]
+        if a != b or st['result'] != codes[model[k]['code']]:
+            return {'step': n, 'trigger': d['history'][n], 'impl': repr(a), 'model': repr(b),
+                    'impl_result': st['result'], 'model_result': codes[model[k]['code']]}
+    if len(ci) != len(cm) and len(ci) < len(cm) and not run.steps[-1]['result'].startswith('exc:'):
+        return {'step': len(run.steps), 'problem': 'step count differs'}
     return None
 
 
@@ -702,19 +899,34 @@ def compare_flat(d, run, model):
 # ---------------------------------------------------------------------------------------------
 
 def oracle_tags(d, run):
-    """`is_<tag>` is True exactly for the state's tags (+ 'accepted' when accepted=True); a machine
-    without Tags/Error has no `is_<tag>` attribute at all (plain State)."""
+    """`is_<tag>` is True exactly for the state's tags (+ 'accepted' when accepted=True) — after construction,
+    after every trigger and after every edit of a public `tags` list (with Python's aliasing of shared list
+    objects); a machine without Tags/Error has no `is_<tag>` attribute at all (plain State)."""
     fails = []
     tagged = 'Tags' in d['feats'] or 'Error' in d['feats']
-    for when, table in (('after construction', run.tags), ('after the history', run.tags_after)):
+    tt = TagTracker(d)
+
+    def check(when, table):
         for i, s in enumerate(d['states']):
             for t in TAGS:
-                want = (t in eff_tags(s)) if tagged else 'AttributeError'
+                want = (t in tt.tags(s['name'])) if tagged else 'AttributeError'
                 got = table[i][t]
                 if got != want or (tagged and not isinstance(got, bool)):
                     fails.append(('tags', {'state': s['name'], 'tag': t, 'expected': want, 'got': repr(got),
-                                           'when': when}))
-    return fails
+                                           'tags_now': list(tt.tags(s['name'])), 'when': when}))
+    if not run.tags:
+        return fails
+    check('after construction', run.tags)
+    for n, (h, st) in enumerate(zip(d['history'], run.steps)):
+        if fails:
+            break
+        if is_edit(h):
+            tt.apply(h[1], h[2], h[3])
+        if 'tags' in st:
+            check('after step %d %r' % (n, h), st['tags'])
+    if not fails and len(run.steps) == len(d['history']):
+        check('after the history', run.tags_after)
+    return fails[:4]
 
 
 def segments(d, step):
@@ -731,14 +943,19 @@ def segments(d, step):
 
 
 def outcome_of(d, seg, last, result):
-    """entered | failed | raised | exited | None (shape violated)"""
+    """entered | failed | raised | exited | aborted | None (shape violated)"""
     op = seg['op']
     its = seg['items']
     s, m = op[1], op[2]
     sd = d['states'][s]
     if op[0] == 'op_exit':
         want = [('exitCb', s, m, j) for j in range(sd['n_exit'])]
-        return 'exited' if [i[:4] for i in its] == want else None
+        if [i[:4] for i in its] == want:
+            return 'exited'
+        if its and its[-1][0] == 'exitRaise' and last and result == 'veto' and \
+                [i[:4] for i in its] == want[:len(its) - 1] + [('exitRaise', s, m, len(its) - 1)]:
+            return 'aborted'
+        return None
     if [i[:4] for i in its] == [('enterCb', s, m, j) for j in range(sd['n_enter'])]:
         return 'entered'
     if len(its) == 1 and its[0][:3] == ('failure', s, m):
@@ -749,22 +966,32 @@ def outcome_of(d, seg, last, result):
 
 
 def oracle_steps(d, run):
-    """needs the probe (ops).  Returns list of (what, details)."""
+    """needs the ops (probe, or derived on flat machines).  Returns list of (what, details)."""
     fails = []
     feats = d['feats']
+    names = state_names(d)
+    idx = sidx(d)
     k = {}                                   # (state, model) -> consecutive self re-entries since a foreign entry
+    local = {}                               # (state, model) -> a locally declared self re-entry among them
     seen_objs = set()
+    tt = TagTracker(d)
     for _s, h in run.initial_post:
         seen_objs.update(x for x in h if x is not None)
+    pre = [s for s, _h in run.initial_post]
     for n, step in enumerate(run.steps):
         res = step['result']
         where = {'step': n, 'trigger': d['history'][n]}
-        if res not in ('true', 'false', 'ME'):
+        if is_edit(d['history'][n]):
+            tt.apply(*d['history'][n][1:4])
+            continue
+        armed = len(d['history'][n]) > 2
+        if res not in ('true', 'false', 'ME') and not (res == 'veto' and armed):
             fails.append(('unexpected-result', dict(where, result=res)))
             break
         segs = segments(d, step)
         if segs and segs[0]['op'] is None:
             fails.append(('shape', dict(where, problem='callbacks outside any enter/exit')))
+            pre = [s for s, _h in step['post']]
             continue
         outs = []
         for q, seg in enumerate(segs):
@@ -773,40 +1000,52 @@ def oracle_steps(d, run):
             if o is None:
                 fails.append(('shape', dict(where, op=seg['op'], items=[i[:4] for i in seg['items']],
                                             problem='an enter runs all on_enter callbacks in order, or on_failure '
-                                                    'once, or raises MachineError; an exit runs all on_exit callbacks')))
+                                                    'once, or raises MachineError; an exit runs all on_exit callbacks '
+                                                    'or stops at the one that raises')))
         if None in outs:
+            pre = [s for s, _h in step['post']]
             continue
         if res == 'ME' and segs and outs[-1] != 'raised':
             fails.append(('shape', dict(where, problem='MachineError after a completed state change')))
+        if res == 'veto' and (not segs or outs[-1] != 'aborted'):
+            fails.append(('shape', dict(where, problem='exception of an exit callback surfaced elsewhere')))
         for q, (seg, o) in enumerate(zip(segs, outs)):
             op = seg['op']
             s, m = op[1], op[2]
             sd = d['states'][s]
             w = dict(where, state=sd['name'], model=m, op=q)
             if op[0] == 'op_enter':
-                src = op[3]
+                raw = op[3]
+                pre_name = names[pre[m]] if 0 <= pre[m] < len(names) else None
+                src = idx.get(resolve_source(d, raw, pre_name), -1)
+                is_local = raw not in idx
                 # --- Error: MachineError on entry iff no outgoing transition and not accepted
-                want_raise = 'Error' in feats and not has_out(d, sd['name']) and 'accepted' not in eff_tags(sd)
+                tags_now = tt.tags(sd['name'])
+                want_raise = 'Error' in feats and not has_out(d, sd['name']) and 'accepted' not in tags_now
                 if (o == 'raised') != want_raise:
                     fails.append(('error-iff', dict(w, outcome=o, expected_raise=want_raise,
-                                                    has_outgoing=has_out(d, sd['name']), tags=eff_tags(sd))))
+                                                    has_outgoing=has_out(d, sd['name']), tags=list(tags_now))))
                 # --- Retry
                 r = sd.get('retries') or 0
                 if src != s:
                     k[(s, m)] = 0
+                    local[(s, m)] = False
                     kk = 0
                 else:
                     kk = k.get((s, m))
                     if kk is not None:
                         kk += 1
                         k[(s, m)] = kk
+                    local[(s, m)] = local.get((s, m), False) or is_local
                 if 'Retry' not in feats or r == 0:
                     if o == 'failed':
                         fails.append(('retry-exact', dict(w, outcome=o, retries=r, problem='on_failure without a limit')))
                 elif kk is not None and kk <= r + 1:
                     want = 'failed' if kk == r + 1 else 'entered'
                     if o != want and not (o == 'raised' and want == 'entered'):
-                        fails.append(('retry-exact', dict(w, outcome=o, expected=want, retries=r, self_reentry_no=kk)))
+                        fails.append(('retry-exact', dict(w, outcome=o, expected=want, retries=r, self_reentry_no=kk,
+                                                          source_as_declared=raw,
+                                                          locally_declared=bool(local.get((s, m))))))
                 # (kk is None: the model was placed in the state without an entry — not judged;
                 #  kk > r + 1: the statement speaks about "the next one" only — not judged)
                 # --- Volatile: a fresh object under the hook on every (completed) entry
@@ -823,6 +1062,18 @@ def oracle_steps(d, run):
                                                                  expected_cls=cls_want)))
                     elif any(x is not None for x in snp):
                         fails.append(('volatile-fresh', dict(w, problem='hook attribute without Volatile')))
+            elif o == 'aborted':
+                # --- Volatile: the exit did not happen (a callback raised, the model stays in the state):
+                #     the model still carries what it carried
+                before = seg['items'][-1][4]
+                after = step['post'][m][1]
+                if after != before:
+                    fails.append(('volatile-kept', dict(w, hooks_before=before, hooks_after=after,
+                                                        problem='the transition was aborted by a raising on_exit '
+                                                                'callback, the model is still in the state but its '
+                                                                'hook objects changed')))
+                if step['post'][m][0] != pre[m]:
+                    fails.append(('shape', dict(w, problem='aborted exit moved the model')))
             else:
                 # --- Volatile: removed on exit (looked at in the very next observation of this model)
                 h = HOOKS.index(sd.get('hook') or 'scope')
@@ -843,6 +1094,7 @@ def oracle_steps(d, run):
             if 'Volatile' not in feats and any(x is not None for x in hsnap):
                 fails.append(('volatile-fresh', dict(where, problem='hook attribute without Volatile')))
             seen_objs.update(x for x in hsnap if x is not None)
+        pre = [s for s, _h in step['post']]
     return fails
 
 
@@ -854,12 +1106,16 @@ def flat_engine_ops(d, run):
     cur = [s for s, _h in run.initial_post]
     names = state_names(d)
     out = []
-    for n, (m, ev) in enumerate(d['history'][:len(run.steps)]):
+    for n, h in enumerate(d['history'][:len(run.steps)]):
+        if is_edit(h):
+            out.append([])
+            continue
+        m, ev = h[0], h[1]
         t = next(((e, s, dd) for e, s, dd in tr if e == ev and s == names[cur[m]]), None)
         if t is None or t[2] is None:
             out.append([])
         else:
-            out.append([('op_exit', idx[t[1]], m), ('op_enter', idx[t[2]], m, idx[t[1]])])
+            out.append([('op_exit', idx[t[1]], m), ('op_enter', idx[t[2]], m, t[1])])
         cur = [s for s, _h in run.steps[n]['post']]
     return out
 
@@ -871,9 +1127,12 @@ def inject_ops(d, run):
         items = list(st['items'])
         if ops:
             k = 0
-            while k < len(items) and items[k][0] == 'exitCb':
+            while k < len(items) and items[k][0] in ('exitCb', 'exitRaise'):
                 k += 1
-            items = [ops[0]] + items[:k] + [ops[1]] + items[k:]
+            if any(it[0] == 'exitRaise' for it in items[:k]):
+                items = [ops[0]] + items        # the exit was aborted: no entry follows
+            else:
+                items = [ops[0]] + items[:k] + [ops[1]] + items[k:]
         steps.append(dict(st, items=items))
     r = copy.copy(run)
     r.steps = steps
@@ -898,11 +1157,17 @@ def shrink_steps(case):
         del c['history'][i]
         if c['history']:
             yield mk(c)
-    for i in range(len(d['transitions'])):
-        c = copy.deepcopy(d)
-        del c['transitions'][i]
-        yield mk(c)
-    if d['nmodels'] > 1 and all(m < d['nmodels'] - 1 for m, _e in d['history']):
+    for i, h in enumerate(d['history']):
+        if not is_edit(h) and len(h) > 2:
+            c = copy.deepcopy(d)
+            c['history'][i] = h[:2]
+            yield mk(c)
+    for key in ('transitions', 'local'):
+        for i in range(len(d.get(key, []))):
+            c = copy.deepcopy(d)
+            del c[key][i]
+            yield mk(c)
+    if d['nmodels'] > 1 and all(is_edit(h) or h[0] < d['nmodels'] - 1 for h in d['history']):
         c = copy.deepcopy(d)
         c['nmodels'] -= 1
         yield mk(c)
@@ -924,8 +1189,8 @@ def shrink_steps(case):
                 c = copy.deepcopy(d)
                 c['states'][i][key] = 1
                 yield mk(c)
-    for flag in ('auto', 'send_event', 'ignore'):
-        if d[flag]:
+    for flag in ('auto', 'send_event', 'ignore', 'on_exception'):
+        if d.get(flag):
             c = copy.deepcopy(d)
             c[flag] = False
             yield mk(c)
